@@ -503,14 +503,11 @@ def check_key_val(key: str, val: Any, deprecations: dict = deprecations) -> tupl
             new_val = val_aliases[val]
 
     if key == "device":
-        if "cpu" in str(new_val):
-            new_val = "cpu"
-        else:
-            new_val, gpu_id = validate_device(new_val)
-            if "cuda" in new_val:
-                torch.cuda.set_device(gpu_id)
-                if config["has_cupy"]:
-                    cp.cuda.runtime.setDevice(gpu_id)
+        new_val, gpu_id = validate_device(new_val)
+        if "cuda" in new_val:
+            torch.cuda.set_device(gpu_id)
+            if config["has_cupy"]:
+                cp.cuda.runtime.setDevice(gpu_id)
     return key, new_val
 
 
